@@ -1,3 +1,4 @@
+import XcmModel.Lemmas.Btls
 import XcmModel.Btcp
 import XcmModel.Lemmas.Api
 /-!
@@ -212,3 +213,101 @@ example : (Api.send { blocking := true, bytestream := true } 7000 [.ok 3000, .er
   decide
 
 end XcmModel.C02
+
+/-! ## btls (xcm_tp_btls.c): what XCM's TLS byte-stream layer does with OpenSSL's answers
+
+`written` is the concatenation of the ranges `SSL_write` reported as taken, `delivered` the concatenation
+of what `SSL_read` returned.  That OpenSSL itself transports `written` unchanged to the peer's
+`SSL_read` is the environment assumption K-openssl-stream, probed end to end by `sys_tls`. -/
+namespace XcmModel.C02btls
+open XcmModel XcmModel.Btls
+
+/-- for len > 0 xcm_send returns 1..len and exactly that prefix of this call's buffer was handed to OpenSSL -/
+theorem C02_btls_rc_range (s : St) (buf : Bytes) (h : HAns) (w : WAns) (k : Nat) (p : Bytes) (hl : 0 < buf.length)
+    (hr : (send s buf h w).2.1 = .n k p) :
+    1 ≤ k ∧ k ≤ buf.length ∧ (send s buf h w).1.written = s.written ++ buf.take k := by
+  have hd := tfh_data s h
+  revert hr
+  unfold send
+  generalize tryFinishHandshake s h = s1 at hd
+  simp only
+  split
+  · intro hr; cases hr
+  · intro hr; cases hr
+  · intro hr; cases hr
+  · split
+    · omega
+    · cases w with
+      | n a =>
+        intro hr
+        simp only [Res.n.injEq] at hr
+        obtain ⟨hk, _⟩ := hr
+        subst hk
+        refine ⟨by omega, by omega, ?_⟩
+        simp only [hd.1]
+      | zero => intro hr; cases hr
+      | ev e => simp only; split <;> (intro hr; cases hr)
+
+/-- a call that failed (EAGAIN included) handed nothing of its buffer to OpenSSL -/
+theorem C02_btls_failed_call_no_trace (s : St) (buf : Bytes) (h : HAns) (w : WAns) (e : Nat)
+    (hr : (send s buf h w).2.1 = .err e) : (send s buf h w).1.written = s.written := by
+  have hd := tfh_data s h
+  revert hr
+  unfold send
+  generalize tryFinishHandshake s h = s1 at hd
+  simp only
+  split
+  · intro _; exact hd.1
+  · intro _; exact hd.1
+  · intro _; exact hd.1
+  · split
+    · intro hr; cases hr
+    · cases w with
+      | n a => intro hr; cases hr
+      | zero => intro _; exact hd.1
+      | ev ev =>
+        simp only
+        have f := (frame_reset s1).trans (frame_pse { s1 with sslCondition := 0, sslWants := 0 } SENDABLE ev)
+        split <;> (intro _; exact f.written.trans hd.1)
+
+/-- xcm_receive never returns more than `capacity`; what it returns is exactly what is appended to the delivered stream -/
+theorem C02_btls_capacity (s : St) (cap : Nat) (h : HAns) (r : RAns) (k : Nat) (p : Bytes)
+    (hr : (receive s cap h r).2.1 = .n k p) :
+    k ≤ cap ∧ p.length = k ∧ (receive s cap h r).1.delivered = s.delivered ++ p := by
+  have hd := tfh_data s h
+  revert hr
+  unfold receive
+  generalize tryFinishHandshake s h = s1 at hd
+  simp only
+  split
+  · intro hr; cases hr
+  · intro hr; cases hr; exact ⟨Nat.zero_le _, rfl, by simp [hd.2.1]⟩
+  · intro hr; cases hr
+  · cases r with
+    | data bs =>
+      simp only
+      split
+      · intro hr; cases hr
+      · intro hr
+        simp only [Res.n.injEq] at hr
+        obtain ⟨hk, hp⟩ := hr
+        subst hk hp
+        refine ⟨?_, rfl, by simp only [hd.2.1]⟩
+        simp only [List.length_take]; omega
+    | ev ev =>
+      simp only
+      have f := (frame_reset s1).trans (frame_pse { s1 with sslCondition := 0, sslWants := 0 } RECEIVABLE ev)
+      split
+      · intro hr; cases hr; exact ⟨Nat.zero_le _, rfl, by rw [List.append_nil]; exact f.delivered.trans hd.2.1⟩
+      · intro hr; cases hr
+      · intro hr; cases hr
+
+/-- the four byte counters equal the lengths of the two streams in every reachable state -/
+theorem C02_btls_counters (auth : Bool) (ops : List Op) :
+    let s := run { auth := auth } ops
+    s.cnt.fromApp = s.written.length ∧ s.cnt.toLower = s.written.length ∧
+    s.cnt.toApp = s.delivered.length ∧ s.cnt.fromLower = s.delivered.length := by
+  have h := run_inv ops (init_inv auth)
+  exact ⟨h.cntW.1, h.cntW.2, h.cntD.1, h.cntD.2⟩
+
+end XcmModel.C02btls
